@@ -7,10 +7,12 @@ HARNESSES = {
     "tstamp": dict(src=["harness/h_tstamp.cpp"], flavour="asan"),
     "tables": dict(src=["harness/h_tables.cpp"], flavour="asan"),
     "writers": dict(src=["harness/h_writers.cpp"], flavour="asan"),
+    "crash": dict(src=["harness/h_crash.cpp"], flavour="asan", ldflags=["-rdynamic"], libs=["-lrapidcheck", "-ldl"]),
 }
 
 ENGINE_TEXT = {
     "codec": "rapidcheck + exhaustive choice-tree enumeration on CdnsEncoder/CdnsDecoder, ASan+UBSan",
+    "crash": "rapidcheck scenarios x exhaustive crash/fault points; write/writev/rename interposed in the executable; fork per crash point; ASan+UBSan",
     "writers": "rapidcheck + enumerated large-chunk classes on CborOutputWriter/Gzip/Xz writers, ASan+UBSan",
     "tstamp": "exhaustive grid + rapidcheck on Timestamp with __int128 reference, ASan+UBSan",
     "tables": "rapidcheck state machines on CdnsBlock tables and block copies, ASan+UBSan",
@@ -222,5 +224,32 @@ PROPS = {
             dict(harness="writers", prop="c14_plan", cases=(1600, 60000), size=(30, 80)),
             dict(harness="hist", prop="hist_c14", cases=(3000, 80000), size=(40, 100)),
         ],
+    ),
+
+    "C15": dict(
+        level="fault_enumeration",
+        rule="generated scenarios on named outputs (plain/gzip/xz; 1..4 outputs; record sizes 10 B..30 KB so that some outputs need many OS writes and some none before close; rotation onto fresh names, "
+             "onto names holding a complete older file, onto names used earlier in the scenario; destruction with and without buffered data) x EVERY crash point k = 1..N, where the process is killed "
+             "(_exit) immediately before its k-th write/writev/rename (interposed in the harness, counted by a fault-free reference run in a forked child). Oracle: every directory entry not ending "
+             "in .part is byte-identical to the pre-existing file of that name or to a completed output of that name (snapshots of the reference run, each validated as a complete stream + valid document). "
+             "Non-trivial: scenario with N > 1 and a rotation or compression; exhaustive over k per scenario.",
+        level_text="exhaustive enumeration of crash points (system-call granularity) for each generated scenario; fork per point",
+        level_note="crash = process death between system calls as the property defines it; says nothing about un-synced data after power loss; outputs are deterministic across forked children",
+        technique="property-based testing with fault injection: generated scenarios x exhaustive crash-point enumeration",
+        assumptions=["write/writev/rename are the only output-related system calls of the library (ofstream uses writev, Writer<int> uses write, std::rename uses rename)"],
+        jobs=[dict(harness="crash", prop="c15_crash", cases=(1600, 48000), size=(30, 60))],
+    ),
+    "C16": dict(
+        level="fault_enumeration",
+        rule="the C15 scenarios for file-name AND descriptor outputs x EVERY fault point k = 1..N (k-th write/writev) x {ENOSPC, EIO, short write} x {once, persistent for that file}; after the first "
+             "exception the documented recovery runs (rotate_output to a healthy destination without export, write_block, destruction). Oracles: (a) if the output hit by the fault differs from the "
+             "fault-free one, some API call up to the rotate_output closing it threw; (b) after an exception from buffer_qr/write_block the item counter equals the failed block's size; (c) recovery rotate "
+             "succeeds, the recovery output is valid, and every record of the failed block appears exactly once in the recovery output or in the (valid) damaged output. Failures are reduced to the signature "
+             "<oracle, output kind, compression, API call during which the fault fired, once|persistent|short> and matched against known_findings.txt. Non-trivial: the fault fired and bytes were lost.",
+        level_text="exhaustive enumeration of fault points x fault kinds for each generated scenario, in-process",
+        level_note="destruction cannot throw and is outside the guarantee; short writes that libstdc++ retries successfully lose nothing and demand nothing",
+        technique="property-based testing with fault injection: generated scenarios x exhaustive fault-point enumeration, signature-based known findings",
+        assumptions=["a persistent failure is tied to the file (device, inode), not to the descriptor number"],
+        jobs=[dict(harness="crash", prop="c16_faults", cases=(480, 32000), size=(30, 60))],
     ),
 }
